@@ -140,6 +140,9 @@ fn explore(cfg: &Cfg18, reference: Arc<(usize, u64)>, bound: usize, budget: u64,
     let f2 = findings.clone();
     let mut config = Config::default();
     config.max_steps = shuttle::MaxSteps::FailAfter(1_000_000);
+    // model threads get real-thread-sized stacks (the default 60 KiB overflows as soon as the code under test keeps a 64 KiB
+    // buffer on its stack; a crash of the explorer would be a machinery exit, not a verdict)
+    config.stack_size = 1 << 20;
     let runner = Runner::new(sched, config);
     let res = std::panic::catch_unwind(std::panic::AssertUnwindSafe(|| {
         runner.run(move || {
